@@ -9,8 +9,8 @@
      text displayed at that moment (list of lines, each a list of segments).  calc_coords,
      calc_line_pos, calc_pos, shift_line, Edit.get_line_translation, position_coords,
      move_cursor_to_coords are modelled over that data.
-   * the column width of a code point ([cw], str_util.get_char_width) and [str.upper] ([upper]):
-     Section variables; the extracted model is instantiated with tables sent by the harness.
+   * the column width of a code point ([cw], str_util.get_char_width), [str.upper] of a character
+     ([upper]) and [str.lower] of a string ([lower]): Section variables; the extracted model is instantiated with tables sent by the harness.
 
    Not modelled: bytes mode, [highlight] (no Edit method ever sets it to a non-None value; it is
    None in every state reachable through the modelled API), the rendered canvas content. *)
@@ -93,12 +93,20 @@ Fixpoint is_prefix (u s : list Z) : bool :=
 Fixpoint is_sub (u s : list Z) : bool :=
   is_prefix u s || match s with [] => false | _ :: s' => is_sub u s' end.
 
+Fixpoint list_eqb (a b : list Z) : bool :=
+  match a, b with
+  | [], [] => true
+  | x :: a', y :: b' => (x =? y) && list_eqb a' b'
+  | _, _ => false
+  end.
+
 Fixpoint memz (x : Z) (l : list Z) : bool :=
   match l with [] => false | y :: r => (x =? y) || memz x r end.
 
 Section Model.
 Variable cw : Z -> Z.              (* str_util.get_char_width of a code point *)
 Variable upper : Z -> list Z.      (* str.upper of a one-character string *)
+Variable lower : list Z -> list Z. (* str.lower *)
 
 (* ---------- str_util ---------- *)
 
@@ -348,7 +356,9 @@ Definition valid_char (s : st) (cs : list Z) : result bool :=
   | VNum allowed _ negative =>
       match cs with
       | [c] =>
-          if is_sub (upper c) allowed then
+          let up := upper c in
+          (* up in self._allowed and ch in {up, up.lower()} *)
+          if is_sub up allowed && (list_eqb [c] up || list_eqb [c] (lower up)) then
             Ok (negb ((pos s =? 0) && match text s with 45 :: _ => true | _ => false end))
           else
             Ok (negative && (c =? 45) && (pos s =? 0) && negb (memz 45 (text s)))
@@ -542,7 +552,7 @@ Definition float_variant (sep : Z) (negative : bool) : variant :=
 
 (* ---------- wire format (harness <-> extracted model) ----------
    case  = variant caption(list) text(list) pos(oz) multiline allow_tab mask(oz)
-           nwidths (cp w)*  nupper (cp list)*  nevents event*
+           nwidths (cp w)*  nupper (cp list)*  nlower (list list)*  event*
    variant = 0 | 1 | 2 base neg | 3 sep neg | 4 allowed(list) trim neg
    layout  = nrows (nsegs seg* )*     seg = 0 sc | 1 sc offs | 2 sc offs end
    event   = 1 text(list) | 2..11 (named key) w layout  | 13 button col row w layout
@@ -575,6 +585,21 @@ Fixpoint lookup_w (t : list (Z * Z)) (c : Z) : Z :=
   match t with [] => 1 | (k, w) :: r => if k =? c then w else lookup_w r c end.
 Fixpoint lookup_u (t : list (Z * list Z)) (c : Z) : list Z :=
   match t with [] => [c] | (k, u) :: r => if k =? c then u else lookup_u r c end.
+
+(* str.lower as a table string -> string (default: the string itself) *)
+Fixpoint dec_assoc_l (n : nat) (l : list Z) : option (list (list Z * list Z) * list Z) :=
+  match n with
+  | O => Some ([], l)
+  | S k => match dec_list l with
+           | Some (a, r) => match dec_list r with
+                            | Some (b, r1) => match dec_assoc_l k r1 with Some (t, r') => Some ((a, b) :: t, r') | None => None end
+                            | None => None
+                            end
+           | None => None
+           end
+  end.
+Fixpoint lookup_l (t : list (list Z * list Z)) (u : list Z) : list Z :=
+  match t with [] => u | (k, v) :: r => if list_eqb k u then v else lookup_l r u end.
 
 Fixpoint dec_segs (n : nat) (l : list Z) : option (line * list Z) :=
   match n with
@@ -699,13 +724,18 @@ Definition run_case (l : list Z) : list Z :=
             match dec_assoc_w (Z.to_nat nw) r4 with
             | Some (wt, nu :: r5) =>
               match dec_assoc_u (Z.to_nat nu) r5 with
-              | Some (ut, r6) =>
+              | Some (ut, nl :: r6) =>
+                match dec_assoc_l (Z.to_nat nl) r6 with
+                | Some (lt, r7) =>
                   let cw := lookup_w wt in
                   let up := lookup_u ut in
-                  let es := dec_events (length r6) r6 in
-                  let '(_, outs) := run cw up (init cap txt p (bz ml) (bz tab) mk v) es in
+                  let lo := lookup_l lt in
+                  let es := dec_events (length r7) r7 in
+                  let '(_, outs) := run cw up lo (init cap txt p (bz ml) (bz tab) mk v) es in
                   zlen es :: flat_map enc_out outs
-              | None => [-7]
+                | None => [-8]
+                end
+              | _ => [-7]
               end
             | _ => [-6]
             end
